@@ -1,11 +1,14 @@
 import GSProofs.Lemmas.RespLifeFrame
 /-!
-The registry invariant of the responder model (used by C05.protect_balanced and the outcome
-theorems): with fresh request ids, a (peer, id) key is protected exactly while it is in the table
-(or its `newRequest` step is parked), and its Protect/Unprotect log is `[]`, `[+]` or `[+,-]`.
+The registry invariant of the responder model (used by C05.protect_balanced, C23): provided a peer
+never sends a `new` request for an id that is LIVE for it (in the table, waiting in the mailbox, or
+parked in `newRequest`) — exactly the complement of finding `dup-live-id` — a (peer, id) key is
+protected exactly while it is in the table (or its `newRequest` step is parked), table ids are unique,
+and the Protect/Unprotect calls per key alternate starting with Protect (ids may be re-used after
+retirement, so the log is `(+ -)* (+)?`).
 
-`RStep` abstracts every model step to its effect on the projection `pi`; `PInv` is preserved by
-every `RStep`.
+`RStep` abstracts every model step to its effect on the projection `pi`; `PInv` is preserved by every
+`RStep`.
 -/
 namespace GS.RespLife
 
@@ -29,6 +32,18 @@ theorem klog_append (l : List Event) (e : Event) (k : Peer × Id) :
   congr 1
   by_cases h : (evKey e == some k) = true <;> simp [h]
 
+/-- one step of the alternation automaton: `some b` = the calls so far alternate starting with Protect
+    and the tag is currently protected iff `b`; `none` = they do not alternate -/
+def altStep : Option Bool → Bool → Option Bool
+  | some false, true => some true
+  | some true, false => some false
+  | _, _ => none
+
+def alt (l : List Bool) : Option Bool := l.foldl altStep (some false)
+
+theorem alt_append (l : List Bool) (b : Bool) : alt (l ++ [b]) = altStep (alt l) b := by
+  simp [alt, List.foldl_append]
+
 def Pi.protect (x : Pi) (p : Peer) (id : Id) : Pi :=
   { x with prot := if x.prot.contains (p, id) then x.prot else x.prot ++ [(p, id)],
            plog := x.plog ++ [Event.protect p id] }
@@ -40,44 +55,32 @@ def Pi.insert (x : Pi) (p : Peer) (id : Id) : Pi :=
 inductive RStep : Pi → Pi → Prop
   | same (x : Pi) : RStep x x
   | term (x : Pi) (p : Peer) (id : Id) : (p, id) ∈ x.keys → RStep x (x.term p id)
-  | recvNew (x : Pi) (id : Id) : id ∉ x.seen →
-      RStep x { x with seen := x.seen ++ [id], news := x.news ++ [id] }
-  | newOk (x : Pi) (p : Peer) (id : Id) (rest : List Id) : x.news = id :: rest → x.pnew = none →
+  | recvNew (x : Pi) (p : Peer) (id : Id) (seen' : List Id) :
+      (p, id) ∉ x.keys → (p, id) ∉ x.news → x.pnew ≠ some (p, id) →
+      RStep x { x with seen := seen', news := x.news ++ [(p, id)] }
+  | newOk (x : Pi) (p : Peer) (id : Id) (rest : List (Peer × Id)) : x.news = (p, id) :: rest → x.pnew = none →
+      ((∃ k ∈ x.keys, k.2 = id) → (p, id) ∈ x.keys) →
       RStep x (({ x with news := rest }.protect p id).insert p id)
-  | newPark (x : Pi) (p : Peer) (id : Id) (rest : List Id) (c : MgrCont × Peer × Id × List TxOp) :
-      x.news = id :: rest → x.pnew = none →
+  | newPark (x : Pi) (p : Peer) (id : Id) (rest : List (Peer × Id)) (c : MgrCont × Peer × Id × List TxOp) :
+      x.news = (p, id) :: rest → x.pnew = none → ((∃ k ∈ x.keys, k.2 = id) → (p, id) ∈ x.keys) →
       RStep x { ({ x with news := rest }.protect p id) with pnew := some (p, id), pcore := some c }
   | resumeNew (x : Pi) (p : Peer) (id : Id) : x.pnew = some (p, id) →
       RStep x ({ x with pnew := none, pcore := none }.insert p id)
   | setPcore (x : Pi) (c : Option (MgrCont × Peer × Id × List TxOp)) : RStep x { x with pcore := c }
-  | dropNew (x : Pi) (id : Id) (rest : List Id) : x.news = id :: rest → RStep x { x with news := rest }
+  | dropNew (x : Pi) (k : Peer × Id) (rest : List (Peer × Id)) : x.news = k :: rest → RStep x { x with news := rest }
 
 structure PInv (x : Pi) : Prop where
   nodupIds : (x.keys.map Prod.snd).Nodup
   protIff : ∀ k, k ∈ x.prot ↔ (k ∈ x.keys ∨ x.pnew = some k)
   pnewFresh : ∀ k, x.pnew = some k → k.2 ∉ x.keys.map Prod.snd
-  shape : ∀ k, (klog x.plog k = [] ∨ klog x.plog k = [true] ∨ klog x.plog k = [true, false]) ∧
-               (k ∈ x.prot ↔ klog x.plog k = [true])
-  seenKeys : ∀ k ∈ x.keys, k.2 ∈ x.seen
-  seenLog : ∀ e ∈ x.plog, ∀ k, evKey e = some k → k.2 ∈ x.seen
-  seenNews : ∀ i ∈ x.news, i ∈ x.seen
-  seenPnew : ∀ k, x.pnew = some k → k.2 ∈ x.seen
+  shape : ∀ k, alt (klog x.plog k) = some (x.prot.contains k)
   newsNodup : x.news.Nodup
-  newsFresh : ∀ i ∈ x.news, (∀ e ∈ x.plog, ∀ k, evKey e = some k → k.2 ≠ i) ∧
-                             i ∉ x.keys.map Prod.snd ∧ (∀ k, x.pnew = some k → k.2 ≠ i)
-
-theorem klog_nil_of_fresh {l : List Event} {k : Peer × Id}
-    (h : ∀ e ∈ l, ∀ k', evKey e = some k' → k'.2 ≠ k.2) : klog l k = [] := by
-  unfold klog
-  rw [List.map_eq_nil_iff, List.filter_eq_nil_iff]
-  intro e he hk
-  have : evKey e = some k := by simpa using hk
-  exact h e he k this rfl
+  newsFresh : ∀ k ∈ x.news, k ∉ x.keys ∧ x.pnew ≠ some k
 
 theorem pinv_init (c : Cfg) : PInv (pi (GS.RespLife.init c)) := by
   have e : pi (GS.RespLife.init c) = ⟨[], [], [], [], [], none, none⟩ := rfl
   rw [e]
-  refine ⟨by simp, ?_, ?_, ?_, ?_, ?_, ?_, ?_, by simp, ?_⟩ <;> simp [klog]
+  refine ⟨by simp, ?_, ?_, ?_, by simp, ?_⟩ <;> simp [klog, alt]
 
 theorem nodup_snd_inj {l : List (Peer × Id)} (h : (l.map Prod.snd).Nodup) {a b : Peer × Id}
     (ha : a ∈ l) (hb : b ∈ l) (hab : a.2 = b.2) : a = b := by
@@ -99,12 +102,19 @@ theorem nodup_snd_inj {l : List (Peer × Id)} (h : (l.map Prod.snd).Nodup) {a b 
         exact List.mem_map.2 ⟨a, ha1, rfl⟩
       · exact ih h.2 ha1 hb1
 
-theorem key_unique {x : Pi} (h : (x.keys.map Prod.snd).Nodup) {a b : Peer × Id}
-    (ha : a ∈ x.keys) (hb : b ∈ x.keys) (hab : a.2 = b.2) : a = b := nodup_snd_inj h ha hb hab
+theorem contains_iff {l : List (Peer × Id)} {k : Peer × Id} : l.contains k = true ↔ k ∈ l := by
+  simp
+
+/-- appending an event about another key does not change the shape clause of key `k` -/
+theorem shape_other {x : Pi} (h : PInv x) (e : Event) (k : Peer × Id) (prot' : List (Peer × Id))
+    (hk : (evKey e == some k) = false) (hp : prot'.contains k = x.prot.contains k) :
+    alt (klog (x.plog ++ [e]) k) = some (prot'.contains k) := by
+  rw [klog_append, hk]
+  simp only [Bool.false_eq_true, if_false, List.append_nil]
+  rw [hp]; exact h.shape k
 
 theorem PInv.term {x : Pi} (h : PInv x) {p : Peer} {id : Id} (hk : (p, id) ∈ x.keys) : PInv (x.term p id) := by
   have hprot : (p, id) ∈ x.prot := (h.protIff _).2 (Or.inl hk)
-  have hlog : klog x.plog (p, id) = [true] := ((h.shape _).2).1 hprot
   have hkeys : ∀ k, k ∈ (x.term p id).keys ↔ (k ∈ x.keys ∧ k ≠ (p, id)) := by
     intro k
     simp only [Pi.term, List.mem_filter]
@@ -116,105 +126,70 @@ theorem PInv.term {x : Pi} (h : PInv x) {p : Peer} {id : Id} (hk : (p, id) ∈ x
       refine ⟨h1, ?_⟩
       simp only [bne_iff_ne, ne_eq]
       intro heq
-      exact h2 (key_unique h.nodupIds h1 hk heq)
+      exact h2 (nodup_snd_inj h.nodupIds h1 hk heq)
   have hpn : ∀ k, x.pnew = some k → k ≠ (p, id) := by
     intro k hk' heq; subst heq
     exact h.pnewFresh _ hk' (List.mem_map.2 ⟨_, hk, rfl⟩)
-  refine ⟨?_, ?_, ?_, ?_, ?_, ?_, h.seenNews, h.seenPnew, h.newsNodup, ?_⟩
-  · have : ((x.term p id).keys.map Prod.snd).Sublist (x.keys.map Prod.snd) :=
-      List.Sublist.map _ List.filter_sublist
-    exact List.Nodup.sublist this h.nodupIds
-  · intro k
-    rw [hkeys]
+  have hprotmem : ∀ k, k ∈ (x.term p id).prot ↔ (k ∈ x.prot ∧ k ≠ (p, id)) := by
+    intro k
     show k ∈ x.prot.filter (· != (p, id)) ↔ _
-    rw [List.mem_filter, h.protIff]
+    simp [List.mem_filter]
+  refine ⟨?_, ?_, ?_, ?_, h.newsNodup, ?_⟩
+  · exact List.Nodup.sublist (List.Sublist.map _ List.filter_sublist) h.nodupIds
+  · intro k
+    rw [hkeys, hprotmem, h.protIff]
     constructor
     · rintro ⟨h1 | h1, h2⟩
-      · exact Or.inl ⟨h1, by simpa using h2⟩
+      · exact Or.inl ⟨h1, h2⟩
       · exact Or.inr h1
     · rintro (⟨h1, h2⟩ | h1)
-      · exact ⟨Or.inl h1, by simpa using h2⟩
-      · exact ⟨Or.inr h1, by simpa using hpn k h1⟩
+      · exact ⟨Or.inl h1, h2⟩
+      · exact ⟨Or.inr h1, hpn k h1⟩
   · intro k hk' hmem
     obtain ⟨a, ha, hak⟩ := List.mem_map.1 hmem
-    have := (hkeys a).1 ha
-    exact h.pnewFresh k hk' (List.mem_map.2 ⟨a, this.1, hak⟩)
+    exact h.pnewFresh k hk' (List.mem_map.2 ⟨a, ((hkeys a).1 ha).1, hak⟩)
   · intro k
     have hpl : (x.term p id).plog = x.plog ++ [Event.unprotect p id] := rfl
-    have hpr : (x.term p id).prot = x.prot.filter (· != (p, id)) := rfl
-    rw [hpl, hpr, klog_append]
+    rw [hpl]
     by_cases hkk : k = (p, id)
     · subst hkk
+      rw [klog_append]
       have e1 : (evKey (Event.unprotect p id) == some (p, id)) = true := by simp [evKey]
-      rw [e1, hlog]
-      simp [evPlus]
-    · have e1 : (evKey (Event.unprotect p id) == some k) = false := by
-        simp only [evKey, beq_eq_false_iff_ne, ne_eq, Option.some.injEq]
+      rw [e1, if_pos rfl, alt_append, h.shape]
+      have e2 : x.prot.contains (p, id) = true := contains_iff.2 hprot
+      have e3 : (x.term p id).prot.contains (p, id) = false := by
+        apply Bool.eq_false_iff.2
+        intro hc
+        exact ((hprotmem _).1 (contains_iff.1 hc)).2 rfl
+      rw [e2, e3]; rfl
+    · apply shape_other h
+      · simp only [evKey, beq_eq_false_iff_ne, ne_eq, Option.some.injEq]
         exact fun h => hkk h.symm
-      rw [e1]
-      simp only [Bool.false_eq_true, if_false, List.append_nil, List.mem_filter]
-      refine ⟨(h.shape k).1, ?_⟩
-      rw [← (h.shape k).2]
-      constructor
-      · exact fun h => h.1
-      · exact fun h => ⟨h, by simpa using hkk⟩
+      · apply Bool.eq_iff_iff.2
+        rw [contains_iff, contains_iff, hprotmem]
+        exact ⟨fun h => h.1, fun h => ⟨h, hkk⟩⟩
   · intro k hk'
-    exact h.seenKeys k ((hkeys k).1 hk').1
-  · intro e he k hk'
-    rcases List.mem_append.1 he with he | he
-    · exact h.seenLog e he k hk'
-    · simp only [List.mem_singleton] at he
-      subst he
-      simp only [evKey, Option.some.injEq] at hk'
-      subst hk'
-      exact h.seenKeys _ hk
-  · intro i hi
-    obtain ⟨h1, h2, h3⟩ := h.newsFresh i hi
-    refine ⟨?_, ?_, h3⟩
-    · intro e he k hk'
-      rcases List.mem_append.1 he with he | he
-      · exact h1 e he k hk'
-      · simp only [List.mem_singleton] at he
-        subst he
-        simp only [evKey, Option.some.injEq] at hk'
-        subst hk'
-        intro heq
-        exact h2 (List.mem_map.2 ⟨_, hk, heq⟩)
-    · intro hmem
-      obtain ⟨a, ha, hai⟩ := List.mem_map.1 hmem
-      exact h2 (List.mem_map.2 ⟨a, ((hkeys a).1 ha).1, hai⟩)
+    obtain ⟨h1, h2⟩ := h.newsFresh k hk'
+    exact ⟨fun hm => h1 ((hkeys k).1 hm).1, h2⟩
 
-theorem PInv.recvNew {x : Pi} (h : PInv x) {id : Id} (hid : id ∉ x.seen) :
-    PInv { x with seen := x.seen ++ [id], news := x.news ++ [id] } := by
-  refine ⟨h.nodupIds, h.protIff, h.pnewFresh, h.shape, ?_, ?_, ?_, ?_, ?_, ?_⟩
-  · intro k hk; exact List.mem_append_left _ (h.seenKeys k hk)
-  · intro e he k hk; exact List.mem_append_left _ (h.seenLog e he k hk)
-  · intro i hi
-    rcases List.mem_append.1 hi with hi | hi
-    · exact List.mem_append_left _ (h.seenNews i hi)
-    · exact List.mem_append_right _ hi
-  · intro k hk; exact List.mem_append_left _ (h.seenPnew k hk)
-  · show (x.news ++ [id]).Nodup
+theorem PInv.recvNew {x : Pi} (h : PInv x) {p : Peer} {id : Id} (seen' : List Id)
+    (h1 : (p, id) ∉ x.keys) (h2 : (p, id) ∉ x.news) (h3 : x.pnew ≠ some (p, id)) :
+    PInv { x with seen := seen', news := x.news ++ [(p, id)] } := by
+  refine ⟨h.nodupIds, h.protIff, h.pnewFresh, h.shape, ?_, ?_⟩
+  · show (x.news ++ [(p, id)]).Nodup
     rw [List.nodup_append]
     refine ⟨h.newsNodup, by simp, ?_⟩
     intro a ha b hb
     simp only [List.mem_singleton] at hb
     subst hb
     intro heq; subst heq
-    exact hid (h.seenNews _ ha)
-  · intro i hi
-    rcases List.mem_append.1 hi with hi | hi
-    · exact h.newsFresh i hi
-    · simp only [List.mem_singleton] at hi
-      subst hi
-      refine ⟨?_, ?_, ?_⟩
-      · intro e he k hk heq
-        exact hid (heq ▸ h.seenLog e he k hk)
-      · intro hmem
-        obtain ⟨a, ha, hai⟩ := List.mem_map.1 hmem
-        exact hid (hai ▸ h.seenKeys a ha)
-      · intro k hk heq
-        exact hid (heq ▸ h.seenPnew k hk)
+    exact h2 ha
+  · intro k hk
+    rcases List.mem_append.1 hk with hk | hk
+    · exact h.newsFresh k hk
+    · simp only [List.mem_singleton] at hk
+      subst hk
+      exact ⟨h1, h3⟩
 
 theorem mem_insert_keys {x : Pi} {p : Peer} {id : Id} (hfresh : id ∉ x.keys.map Prod.snd) (k : Peer × Id) :
     k ∈ (x.insert p id).keys ↔ (k ∈ x.keys ∨ k = (p, id)) := by
@@ -244,46 +219,24 @@ theorem nodup_insert_keys {x : Pi} (p : Peer) (id : Id) (h : (x.keys.map Prod.sn
   intro heq
   exact this (hka.trans heq)
 
-/-- the facts about `id` available when its `new` message is at the head of the mailbox -/
-theorem PInv.headFresh {x : Pi} (h : PInv x) {id : Id} {rest : List Id} (hn : x.news = id :: rest)
-    (hp : x.pnew = none) (p : Peer) :
-    (∀ e ∈ x.plog, ∀ k, evKey e = some k → k.2 ≠ id) ∧ id ∉ x.keys.map Prod.snd ∧ (p, id) ∉ x.prot ∧
-      id ∈ x.seen ∧ id ∉ rest ∧ rest.Nodup := by
-  have hmem : id ∈ x.news := by rw [hn]; exact List.mem_cons_self
-  obtain ⟨h1, h2, _⟩ := h.newsFresh id hmem
+/-- the facts about `(p, id)` available when its `new` message is at the head of the mailbox and no
+    other peer holds the id -/
+theorem PInv.headFresh {x : Pi} (h : PInv x) {p : Peer} {id : Id} {rest : List (Peer × Id)}
+    (hn : x.news = (p, id) :: rest) (hp : x.pnew = none) (hown : (∃ k ∈ x.keys, k.2 = id) → (p, id) ∈ x.keys) :
+    id ∉ x.keys.map Prod.snd ∧ (p, id) ∉ x.prot ∧ (p, id) ∉ rest ∧ rest.Nodup := by
+  have hmem : (p, id) ∈ x.news := by rw [hn]; exact List.mem_cons_self
+  obtain ⟨h1, _⟩ := h.newsFresh _ hmem
   have hnd := h.newsNodup
   rw [hn, List.nodup_cons] at hnd
-  refine ⟨h1, h2, ?_, h.seenNews id hmem, hnd.1, hnd.2⟩
+  have hid : id ∉ x.keys.map Prod.snd := by
+    intro hm
+    obtain ⟨k, hk, hki⟩ := List.mem_map.1 hm
+    exact h1 (hown ⟨k, hk, hki⟩)
+  refine ⟨hid, ?_, hnd.1, hnd.2⟩
   intro hin
   rcases (h.protIff _).1 hin with hk | hk
-  · exact h2 (List.mem_map.2 ⟨_, hk, rfl⟩)
+  · exact h1 hk
   · rw [hp] at hk; cases hk
-
-/-- shared part of newOk / newPark: the registry after `Protect` -/
-theorem shape_protect {x : Pi} (h : PInv x) {p : Peer} {id : Id}
-    (hlog : ∀ e ∈ x.plog, ∀ k, evKey e = some k → k.2 ≠ id) (hprot : (p, id) ∉ x.prot) (k : Peer × Id) :
-    (klog (x.plog ++ [Event.protect p id]) k = [] ∨ klog (x.plog ++ [Event.protect p id]) k = [true] ∨
-        klog (x.plog ++ [Event.protect p id]) k = [true, false]) ∧
-      (k ∈ x.prot ++ [(p, id)] ↔ klog (x.plog ++ [Event.protect p id]) k = [true]) := by
-  rw [klog_append]
-  by_cases hkk : k = (p, id)
-  · subst hkk
-    have e1 : (evKey (Event.protect p id) == some (p, id)) = true := by simp [evKey]
-    have e2 : klog x.plog (p, id) = [] := klog_nil_of_fresh (k := (p, id)) hlog
-    rw [e1, e2]
-    simp [evPlus]
-  · have e1 : (evKey (Event.protect p id) == some k) = false := by
-      simp only [evKey, beq_eq_false_iff_ne, ne_eq, Option.some.injEq]
-      exact fun h => hkk h.symm
-    rw [e1]
-    simp only [Bool.false_eq_true, if_false, List.append_nil, List.mem_append, List.mem_singleton]
-    refine ⟨(h.shape k).1, ?_⟩
-    rw [← (h.shape k).2]
-    constructor
-    · rintro (h1 | h1)
-      · exact h1
-      · exact absurd h1 hkk
-    · exact fun h1 => Or.inl h1
 
 theorem protect_prot {x : Pi} {p : Peer} {id : Id} (h : (p, id) ∉ x.prot) :
     (x.protect p id).prot = x.prot ++ [(p, id)] := by
@@ -291,12 +244,33 @@ theorem protect_prot {x : Pi} {p : Peer} {id : Id} (h : (p, id) ∉ x.prot) :
   rw [if_neg]
   simpa using h
 
-theorem PInv.newOk {x : Pi} (h : PInv x) {p : Peer} {id : Id} {rest : List Id} (hn : x.news = id :: rest)
-    (hp : x.pnew = none) : PInv (({ x with news := rest }.protect p id).insert p id) := by
-  obtain ⟨f1, f2, f3, f4, f5, f6⟩ := h.headFresh hn hp p
+/-- shared part of newOk / newPark: the shape clause after `Protect` -/
+theorem shape_protect {x : Pi} (h : PInv x) {p : Peer} {id : Id} (hprot : (p, id) ∉ x.prot) (k : Peer × Id) :
+    alt (klog (x.plog ++ [Event.protect p id]) k) = some ((x.prot ++ [(p, id)]).contains k) := by
+  by_cases hkk : k = (p, id)
+  · subst hkk
+    rw [klog_append]
+    have e1 : (evKey (Event.protect p id) == some (p, id)) = true := by simp [evKey]
+    rw [e1, if_pos rfl, alt_append, h.shape]
+    have e2 : x.prot.contains (p, id) = false := by
+      apply Bool.eq_false_iff.2
+      intro hc; exact hprot (contains_iff.1 hc)
+    have e3 : (x.prot ++ [(p, id)]).contains (p, id) = true := by simp
+    rw [e2, e3]; rfl
+  · apply shape_other h
+    · simp only [evKey, beq_eq_false_iff_ne, ne_eq, Option.some.injEq]
+      exact fun h => hkk h.symm
+    · apply Bool.eq_iff_iff.2
+      rw [contains_iff, contains_iff, List.mem_append, List.mem_singleton]
+      exact ⟨fun h => h.elim (fun h' => h') (fun h' => absurd h' hkk), Or.inl⟩
+
+theorem PInv.newOk {x : Pi} (h : PInv x) {p : Peer} {id : Id} {rest : List (Peer × Id)}
+    (hn : x.news = (p, id) :: rest) (hp : x.pnew = none) (hown : (∃ k ∈ x.keys, k.2 = id) → (p, id) ∈ x.keys) :
+    PInv (({ x with news := rest }.protect p id).insert p id) := by
+  obtain ⟨f2, f3, f5, f6⟩ := h.headFresh hn hp hown
   have hkeys := mem_insert_keys (x := ({ x with news := rest } : Pi).protect p id) (p := p) (id := id) f2
   have hprot : (({ x with news := rest } : Pi).protect p id).prot = x.prot ++ [(p, id)] := protect_prot f3
-  refine ⟨nodup_insert_keys p id h.nodupIds, ?_, ?_, ?_, ?_, ?_, ?_, ?_, f6, ?_⟩
+  refine ⟨nodup_insert_keys p id h.nodupIds, ?_, ?_, ?_, f6, ?_⟩
   · intro k
     rw [hkeys]
     show k ∈ (({ x with news := rest } : Pi).protect p id).prot ↔ _
@@ -310,57 +284,32 @@ theorem PInv.newOk {x : Pi} (h : PInv x) {p : Peer} {id : Id} {rest : List Id} (
     · rintro ((h1 | h1) | h1)
       · exact Or.inl (Or.inl h1)
       · exact Or.inr h1
-      · exact absurd h1 (by simp [Pi.insert])
+      · exact absurd h1 (by simp [Pi.insert, hp])
   · intro k hk
     have : (x.pnew) = some k := hk
     rw [hp] at this; cases this
   · intro k
-    show (klog (x.plog ++ [Event.protect p id]) k = [] ∨ _ ∨ _) ∧
-      (k ∈ (({ x with news := rest } : Pi).protect p id).prot ↔ _)
+    show alt (klog (x.plog ++ [Event.protect p id]) k) = some ((({ x with news := rest } : Pi).protect p id).prot.contains k)
     rw [hprot]
-    exact shape_protect h f1 f3 k
+    exact shape_protect h f3 k
   · intro k hk
-    rcases (hkeys k).1 hk with hk | hk
-    · exact h.seenKeys k hk
-    · subst hk; exact f4
-  · intro e he k hk
-    rcases List.mem_append.1 he with he | he
-    · exact h.seenLog e he k hk
-    · simp only [List.mem_singleton] at he
-      subst he
-      simp only [evKey, Option.some.injEq] at hk
-      subst hk; exact f4
-  · intro i hi
-    exact h.seenNews i (by rw [hn]; exact List.mem_cons_of_mem _ hi)
-  · intro k hk
-    have : (x.pnew) = some k := hk
-    rw [hp] at this; cases this
-  · intro i hi
-    have hi' : i ∈ x.news := by rw [hn]; exact List.mem_cons_of_mem _ hi
-    obtain ⟨g1, g2, g3⟩ := h.newsFresh i hi'
-    have hne : id ≠ i := fun heq => f5 (heq ▸ hi)
-    refine ⟨?_, ?_, ?_⟩
-    · intro e he k hk
-      rcases List.mem_append.1 he with he | he
-      · exact g1 e he k hk
-      · simp only [List.mem_singleton] at he
-        subst he
-        simp only [evKey, Option.some.injEq] at hk
-        subst hk; exact hne
-    · intro hmem
-      obtain ⟨a, ha, hai⟩ := List.mem_map.1 hmem
-      rcases (hkeys a).1 ha with ha | ha
-      · exact g2 (List.mem_map.2 ⟨a, ha, hai⟩)
-      · subst ha; exact hne hai
-    · intro k hk
-      have : (x.pnew) = some k := hk
+    have hk' : k ∈ x.news := by rw [hn]; exact List.mem_cons_of_mem _ hk
+    obtain ⟨g1, _⟩ := h.newsFresh k hk'
+    refine ⟨?_, ?_⟩
+    · intro hm
+      rcases (hkeys k).1 hm with hm | hm
+      · exact g1 hm
+      · subst hm; exact f5 hk
+    · intro hk2
+      have : (x.pnew) = some k := hk2
       rw [hp] at this; cases this
 
-theorem PInv.newPark {x : Pi} (h : PInv x) {p : Peer} {id : Id} {rest : List Id} (hn : x.news = id :: rest)
-    (hp : x.pnew = none) : PInv { ({ x with news := rest }.protect p id) with pnew := some (p, id) } := by
-  obtain ⟨f1, f2, f3, f4, f5, f6⟩ := h.headFresh hn hp p
+theorem PInv.newPark {x : Pi} (h : PInv x) {p : Peer} {id : Id} {rest : List (Peer × Id)}
+    (hn : x.news = (p, id) :: rest) (hp : x.pnew = none) (hown : (∃ k ∈ x.keys, k.2 = id) → (p, id) ∈ x.keys) :
+    PInv { ({ x with news := rest }.protect p id) with pnew := some (p, id) } := by
+  obtain ⟨f2, f3, f5, f6⟩ := h.headFresh hn hp hown
   have hprot : (({ x with news := rest } : Pi).protect p id).prot = x.prot ++ [(p, id)] := protect_prot f3
-  refine ⟨h.nodupIds, ?_, ?_, ?_, h.seenKeys, ?_, ?_, ?_, f6, ?_⟩
+  refine ⟨h.nodupIds, ?_, ?_, ?_, f6, ?_⟩
   · intro k
     show k ∈ (({ x with news := rest } : Pi).protect p id).prot ↔ (k ∈ x.keys ∨ some (p, id) = some k)
     rw [hprot, List.mem_append, List.mem_singleton, h.protIff, hp]
@@ -377,45 +326,23 @@ theorem PInv.newPark {x : Pi} (h : PInv x) {p : Peer} {id : Id} {rest : List Id}
     cases this
     exact f2
   · intro k
-    show (klog (x.plog ++ [Event.protect p id]) k = [] ∨ _ ∨ _) ∧
-      (k ∈ (({ x with news := rest } : Pi).protect p id).prot ↔ _)
+    show alt (klog (x.plog ++ [Event.protect p id]) k) = some ((({ x with news := rest } : Pi).protect p id).prot.contains k)
     rw [hprot]
-    exact shape_protect h f1 f3 k
-  · intro e he k hk
-    rcases List.mem_append.1 he with he | he
-    · exact h.seenLog e he k hk
-    · simp only [List.mem_singleton] at he
-      subst he
-      simp only [evKey, Option.some.injEq] at hk
-      subst hk; exact f4
-  · intro i hi
-    exact h.seenNews i (by rw [hn]; exact List.mem_cons_of_mem _ hi)
+    exact shape_protect h f3 k
   · intro k hk
-    have : some (p, id) = some k := hk
+    have hk' : k ∈ x.news := by rw [hn]; exact List.mem_cons_of_mem _ hk
+    obtain ⟨g1, _⟩ := h.newsFresh k hk'
+    refine ⟨g1, ?_⟩
+    intro hk2
+    have : some (p, id) = some k := hk2
     cases this
-    exact f4
-  · intro i hi
-    have hi' : i ∈ x.news := by rw [hn]; exact List.mem_cons_of_mem _ hi
-    obtain ⟨g1, g2, _⟩ := h.newsFresh i hi'
-    have hne : id ≠ i := fun heq => f5 (heq ▸ hi)
-    refine ⟨?_, g2, ?_⟩
-    · intro e he k hk
-      rcases List.mem_append.1 he with he | he
-      · exact g1 e he k hk
-      · simp only [List.mem_singleton] at he
-        subst he
-        simp only [evKey, Option.some.injEq] at hk
-        subst hk; exact hne
-    · intro k hk
-      have : some (p, id) = some k := hk
-      cases this
-      exact hne
+    exact f5 hk
 
 theorem PInv.resumeNew {x : Pi} (h : PInv x) {p : Peer} {id : Id} (hp : x.pnew = some (p, id)) :
     PInv ({ x with pnew := none }.insert p id) := by
   have f2 : id ∉ x.keys.map Prod.snd := h.pnewFresh _ hp
   have hkeys := mem_insert_keys (x := ({ x with pnew := none } : Pi)) (p := p) (id := id) f2
-  refine ⟨nodup_insert_keys p id h.nodupIds, ?_, ?_, h.shape, ?_, h.seenLog, h.seenNews, ?_, h.newsNodup, ?_⟩
+  refine ⟨nodup_insert_keys p id h.nodupIds, ?_, ?_, h.shape, h.newsNodup, ?_⟩
   · intro k
     rw [hkeys]
     show k ∈ x.prot ↔ _
@@ -430,44 +357,35 @@ theorem PInv.resumeNew {x : Pi} (h : PInv x) {p : Peer} {id : Id} (hp : x.pnew =
       · cases h1
   · intro k hk; cases hk
   · intro k hk
-    rcases (hkeys k).1 hk with hk | hk
-    · exact h.seenKeys k hk
-    · subst hk; exact h.seenPnew _ hp
-  · intro k hk; cases hk
-  · intro i hi
-    obtain ⟨g1, g2, g3⟩ := h.newsFresh i hi
-    refine ⟨g1, ?_, ?_⟩
-    · intro hmem
-      obtain ⟨a, ha, hai⟩ := List.mem_map.1 hmem
-      rcases (hkeys a).1 ha with ha | ha
-      · exact g2 (List.mem_map.2 ⟨a, ha, hai⟩)
-      · subst ha; exact g3 _ hp hai
-    · intro k hk; cases hk
+    obtain ⟨g1, g2⟩ := h.newsFresh k hk
+    refine ⟨?_, by intro hk2; cases hk2⟩
+    intro hm
+    rcases (hkeys k).1 hm with hm | hm
+    · exact g1 hm
+    · subst hm; exact g2 hp
 
 /-- `PInv` does not look at the parked continuation -/
 theorem PInv.setPcore {x : Pi} (h : PInv x) (c : Option (MgrCont × Peer × Id × List TxOp)) :
     PInv { x with pcore := c } :=
-  ⟨h.nodupIds, h.protIff, h.pnewFresh, h.shape, h.seenKeys, h.seenLog, h.seenNews, h.seenPnew, h.newsNodup,
-   h.newsFresh⟩
+  ⟨h.nodupIds, h.protIff, h.pnewFresh, h.shape, h.newsNodup, h.newsFresh⟩
 
 /-- a `new` message that the manager ignores -/
-theorem PInv.dropNew {x : Pi} (h : PInv x) {id : Id} {rest : List Id} (hn : x.news = id :: rest) :
+theorem PInv.dropNew {x : Pi} (h : PInv x) {k : Peer × Id} {rest : List (Peer × Id)} (hn : x.news = k :: rest) :
     PInv { x with news := rest } := by
   have hsub : ∀ i ∈ rest, i ∈ x.news := by intro i hi; rw [hn]; exact List.mem_cons_of_mem _ hi
   have hnd := h.newsNodup
   rw [hn, List.nodup_cons] at hnd
-  exact ⟨h.nodupIds, h.protIff, h.pnewFresh, h.shape, h.seenKeys, h.seenLog, fun i hi => h.seenNews i (hsub i hi),
-    h.seenPnew, hnd.2, fun i hi => h.newsFresh i (hsub i hi)⟩
+  exact ⟨h.nodupIds, h.protIff, h.pnewFresh, h.shape, hnd.2, fun i hi => h.newsFresh i (hsub i hi)⟩
 
 theorem PInv.step {x x' : Pi} (h : PInv x) (st : RStep x x') : PInv x' := by
   cases st with
   | same => exact h
   | term p id hk => exact h.term hk
-  | recvNew id hid => exact h.recvNew hid
-  | newOk p id rest hn hp => exact h.newOk hn hp
-  | newPark p id rest c hn hp => exact (h.newPark hn hp).setPcore (some c)
+  | recvNew p id seen' h1 h2 h3 => exact h.recvNew seen' h1 h2 h3
+  | newOk p id rest hn hp hown => exact h.newOk hn hp hown
+  | newPark p id rest c hn hp hown => exact (h.newPark hn hp hown).setPcore (some c)
   | resumeNew p id hp => exact (h.setPcore none).resumeNew hp
   | setPcore c => exact h.setPcore c
-  | dropNew id rest hn => exact h.dropNew hn
+  | dropNew k rest hn => exact h.dropNew hn
 
 end GS.RespLife
